@@ -123,7 +123,10 @@ def rand_history(rng, width=None):
 
 
 def history_is_nontrivial(plan):
-    """some object is queried, then changed, then queried again"""
+    """some object is queried, then changed, then queried again, and the shots
+    the history starts from contain >= 2 distinct outcomes"""
+    if not any(len(set(o["shots"])) >= 2 for o in plan["objects"]):
+        return False
     stage = {}
     for st in plan["steps"]:
         kind, j = st[0], st[1]
